@@ -72,6 +72,23 @@ func ZstdDecodeAll(b []byte) ([]byte, error) {
 	return io.ReadAll(r)
 }
 
+// ZstdDecodeBoth decodes with the pure Go decoder and with libzstd and
+// requires both to succeed with the same output.
+func ZstdDecodeBoth(b []byte) ([]byte, error) {
+	g, err := ZstdDecodeAll(b)
+	if err != nil {
+		return g, fmt.Errorf("klauspost decoder: %w", err)
+	}
+	c, err := ZstdDecodeAllC(b)
+	if err != nil {
+		return g, fmt.Errorf("libzstd decoder: %w", err)
+	}
+	if !bytes.Equal(g, c) {
+		return g, fmt.Errorf("decoders disagree: %d vs %d bytes", len(g), len(c))
+	}
+	return g, nil
+}
+
 // ZstdEncode compresses b into one frame with the pure Go encoder.
 func ZstdEncode(b []byte) []byte { return zenc.EncodeAll(b, nil) }
 
